@@ -59,6 +59,8 @@ template <typename Item, typename Alloc>
 void bag<Item, Alloc>::clear() {
   m_comm.barrier();
   m_local_bag.clear();
+  // No rank may return (and insert again) before every rank has cleared
+  m_comm.cf_barrier();
 }
 
 template <typename Item, typename Alloc>
@@ -120,6 +122,8 @@ template <typename Item, typename Alloc>
 void bag<Item, Alloc>::swap(self_type &s) {
   m_comm.barrier();
   m_local_bag.swap(s.m_local_bag);
+  // No rank may return (and insert again) before every rank has swapped
+  m_comm.cf_barrier();
 }
 
 template <typename Item, typename Alloc>
